@@ -56,7 +56,9 @@ _scratch_pid = None
 
 def _new_scratch():
     global _scratch, _scratch_pid
-    base = "/dev/shm" if os.access("/dev/shm", os.W_OK) else None
+    base = os.environ.get("DSIM_SCRATCH_BASE")
+    if not base or not os.path.isdir(base):
+        base = "/dev/shm" if os.access("/dev/shm", os.W_OK) else None
     _scratch = tempfile.mkdtemp(prefix="dsimw-", dir=base)
     _scratch_pid = os.getpid()
     import atexit
